@@ -27,7 +27,7 @@ def _trace(drv, binpath, symf, an, sigma, renv, dump=None, tier="thorough"):
     gd = env.get("GODEBUG", "")
     env["GODEBUG"] = (gd + "," if gd else "") + "asyncpreemptoff=1"
     extra = (" -dump %d -dumpfile %s" % dump) if dump is not None else ""
-    if _SHM:
+    if _SHM and "_386" not in binpath:  # (valgrind's 32-bit tools cannot write a log file beyond 2 GiB: those go through a pipe)
         # a trace file on tmpfs is ~2x cheaper than a pipe (valgrind issues one write per line)
         d = tempfile.mkdtemp(prefix="verif-c08-", dir=_SHM)
         tf = os.path.join(d, "trace")
